@@ -141,3 +141,68 @@ def _rename_in_function(root: str, rel: str, qual: str, mapping: dict[str, str])
 def rename_expand_one_node(root: str) -> None:
     _rename_in_function(root, SD, "SuccessionDiagram._expand_one_node",
                         {"node": "nd", "sub_spaces": "spaces", "current_space": "cs", "pn": "net"})
+
+
+# ------------------------------------------------------------------------------------------ C04
+B("B27", "C04-T1", [(SD, '''        for sub_space in sub_spaces:
+            self._ensure_node(node_id, sub_space)
+
+        # If everything else worked out, we can mark the node as expanded.
+        node["expanded"] = True''', '''        node["expanded"] = True
+        for sub_space in sub_spaces:
+            self._ensure_node(node_id, sub_space)
+''')], "_expand_one_node: marked expanded before the children exist")
+B("B27b", "C04-T1", [(SD, '''        # If everything else worked out, we can mark the node as expanded.
+        node["expanded"] = True''', '''        # If everything else worked out, we can mark the node as expanded.
+        pass''')], "_expand_one_node: never marked expanded after growth")
+B("B28a", "C04-T6", [(SD, "        for sub_space in sub_spaces:\n            self._ensure_node(node_id, sub_space)",
+                      "        for sub_space in sub_spaces[:-1]:\n            self._ensure_node(node_id, sub_space)")],
+  "last sub-space dropped")
+B("B28b", "C04-T6", [(SD, "sub_spaces = [(s | current_space) for s in partial_sub_spaces]",
+                      "sub_spaces = [(s | current_space) for s in partial_sub_spaces if len(s) > 1]")],
+  "comprehension filters sub-spaces")
+B("B28c", "C04-T6", [(SD, '''                problem="max",
+                ensure_subspace=current_space,''', '''                problem="max",''')],
+  "global net without ensure_subspace")
+B("B28d", "C04-T6", [(SD, '''        if node_id == self.root():
+            source_nodes = extract_source_variables(self.petri_net)''', '''        if True:
+            source_nodes = extract_source_variables(self.petri_net)''')], "source optimisation at every node")
+B("B29", "C04-T5", [(SD, "                space=fixed_vars,", "                space=stable_motif,")],
+  "_ensure_node stores the unpercolated space")
+B("B29b", "C04-T5", [(SD, "            self.node_indices[key] = child_id\n", "")], "created node not registered in the index")
+B("B29c", "C04-T5", [(SD, "            child_id = self.dag.number_of_nodes()\n", "            child_id = self.dag.number_of_nodes() + 1\n")],
+  "node ids skip a number")
+B("B62", "C04-T3", [(SD, '''        node = cast(dict[str, Any], self.dag.nodes[node_id])
+        if node["expanded"]:
+            return
+''', '''        node = cast(dict[str, Any], self.dag.nodes[node_id])
+''')], "_expand_one_node re-expands expanded nodes")
+B("B63", "C04-T2", [(SD, '''            data["percolated_nfvs"] = None
+            if data["attractor_seeds"]''', '''            data["percolated_nfvs"] = None
+            data["expanded"] = data["attractor_seeds"] is not None
+            if data["attractor_seeds"]''')], "expanded flag assigned a computed value")
+B("B64", "C04-T8", [(BLK, "if len(sources) != 0 and optimize_source_nodes:", "if len(sources) != 0 or optimize_source_nodes:")],
+  "source shortcut taken although disabled")
+B("B65", "C04-T1", [(SCC, '''        if scc_sd.node_is_minimal(scc_node_id):
+            min_traps.append(main_node_id)
+        else:
+            # This node can be marked as expanded, because we know its successors.
+            # We just need to add them in the for loop below.
+            if not''', '''        if scc_sd.node_is_minimal(scc_node_id):
+            min_traps.append(main_node_id)
+        if True:
+            # This node can be marked as expanded, because we know its successors.
+            # We just need to add them in the for loop below.
+            if not''')], "attach: minimal nodes of the sub-diagram marked expanded in the main diagram")
+B("B66", "C04-T1", [(SCC, "sd._ensure_edge(main_node_id, main_succ_id, inner_stable_motif)",
+                     "sd._ensure_edge(main_succ_id, main_node_id, inner_stable_motif)")], "attach: edge direction swapped")
+B("B67", "C04-T1", [(SCC, '''    sd.node_data(attach_at)["expanded"] = True
+    # Finally,''', '''    # Finally,''')], "attach: attachment node never marked expanded")
+B("B68", "C04-T1", [(SD, '''        node["expanded"] = True
+        node["skipped"] = True
+
+        if self.config["debug"]:
+            print(f"[{node_id}] Added''', '''        node["skipped"] = True
+
+        if self.config["debug"]:
+            print(f"[{node_id}] Added''')], "skip_to_minimal: skip node left unexpanded with edges")
